@@ -55,12 +55,12 @@ SIMWHAT = "random growth: 3 variables, <= 10 statements, nesting <= 3, <= 4 comp
 TIERS = {
     "quick": {
         "gen": [("DefAssign_gflow", 40), ("DefAssign_gtry", 50), ("DefAssign_gmisc", 55), ("DefAssign_gtry5", 40), ("DefAssign_gloop5", 40)],
-        "sim": ("DefAssign_gsim", 120, 14, 1500, 45),
+        "sim": ("DefAssign_gsim", 600, 14, 1500, 45),
         "run": "DefAssign_run", "per_module": 45,
     },
     "thorough": {
         "gen": [("DefAssign_gflow", 220), ("DefAssign_gtry", 220), ("DefAssign_gmisc", 220), ("DefAssign_gtry5", None), ("DefAssign_gloop5", 250)],
-        "sim": ("DefAssign_gsim", 240, 16, 6000, 160),
+        "sim": ("DefAssign_gsim", 1200, 16, 6000, 160),
         "run": "DefAssign_runt", "per_module": 50,
     },
 }
@@ -211,11 +211,23 @@ def classify(rec, cobs, info, cfg):
     return d, obs
 
 
+def touched_in_pattern_case(prog, var):
+    """the name is captured by, or bound / deleted inside the body of, a pattern case that is followed by a wildcard case"""
+    for x in ld.walk(prog):
+        if x["t"] == "match" and x["d"]:
+            if x["v"] == var:
+                return True
+            for y in ld.walk(x["a"]):
+                if (y["v"] == var and y["t"] in ("asg", "wal", "for", "with", "match", "del")) or any(h["v"] == var for h in y["hs"]):
+                    return True
+    return False
+
+
 def var_features(info, var, cfg):
     ty = (info["types"].get(cfg) or {}).get(ld.VNAMES[var]) or {}
     return {"inferred_ctype": ty.get("ctype", "?").strip(), "c_numeric": bool(ty.get("numeric", False)),
             "closure_var": var in info["cells"],
-            "match_with_default": any(x["t"] == "match" and x["v"] == var and x["d"] for x in ld.walk(info["prog"])),
+            "match_with_default": touched_in_pattern_case(info["prog"], var),
             "binders": "+".join(sorted(ld.binders(info["prog"], var))) or "none"}
 
 
@@ -580,9 +592,12 @@ def run(tier, seed, only=None):
                 n_dflt_ok += 1
             else:
                 cls_count["default_mode_rejects_bindable_use"] += 1
-                rep.disagree({"config": "default", "ev": info["stmts"][sid]["t"] if sid else "other", "spec": "bound_on_some_path",
-                              "msg_class": "referenced before assignment" if "referenced before" in msg else "other"},
-                             "default_mode_rejects", {"source": "\n".join(r_.lines), "error": msg, "line_offset": off,
+                d = {"config": "default", "ev": info["stmts"][sid]["t"] if sid else "other", "spec": "bound_on_some_path",
+                     "msg_class": "referenced before assignment" if "referenced before" in msg else "other"}
+                if sid:
+                    st = info["stmts"][sid]
+                    d.update(var_features(info, st["r"] if st["t"] == "comp" else st["v"], "safe"))
+                rep.disagree(d, "default_mode_rejects", {"source": "\n".join(r_.lines), "error": msg, "line_offset": off,
                                                       "program": strip(info["prog"])})
     timing["replay"] = time.time() - t0
     # ---- 6. binding demonstration: corrupted expectations must be rejected by the comparison
